@@ -48,6 +48,26 @@ def run(tier):
     # big jobs first, one per process slot
     jobs.sort(key=lambda j: 0 if j.get("noMatrix") else 1)
     rows, crashed = vlib.run_hz_jobs(hz, "workflow", jobs, nproc=vlib.NCPU if not thorough else 8, timeout=6000)
+    # the parallel variants once more in processes that see a single processor (GOMAXPROCS=1; one-CPU affinity) and three:
+    # a broken source must be rejected there too, not waited for
+    envjobs = []
+    pick = [x for x in streams if x[0] == "const"][:3] + [x for x in streams if x[0] != "const"][:4]
+    for label, env, ts in (("GOMAXPROCS=1", {"GOMAXPROCS": "1"}, None), ("1 cpu", None, "0"), ("GOMAXPROCS=3", {"GOMAXPROCS": "3"}, None)):
+        ej = []
+        for name, st in pick:
+            jid += 1
+            j = wf.mkjob(jid, "PeriodDetectFast", mode="real", stream=st, policy="full", rseed=jid, tag=name + " " + label, timeout_ms=20000)
+            j["mustreject"] = True
+            ej.append(j)
+        jid += 1
+        j = wf.mkjob(jid, "PowerOnDetectFast", mode="real", stream={"kind": "const", "byte": 0, "len": -1}, policy="fixed", size=65536, rseed=jid, tag="const00 " + label, timeout_ms=600000)
+        j["mustreject"] = True
+        j["noMatrix"] = True
+        ej.append(j)
+        r2, c2 = vlib.run_hz_jobs(hz, "workflow", ej, nproc=4, timeout=6000, env=env, taskset=ts)
+        rows.update(r2)
+        crashed += c2
+        jobs += ej
     for c in crashed:
         j = c["first_missing"]
         if j is None:
